@@ -460,6 +460,38 @@ _ADDENDA8 = {
 }
 for _k, _v in _ADDENDA8.items():
     CLAIMS[_k]['text'] = CLAIMS[_k]['text'].rstrip() + ' ' + _v
+# Rules added after the tenth round (DESIGN.md 10.13).
+_ADDENDA10 = {
+    'C01': "Field values compare by content: every @dataclass of pedal.core declares the attributes its __init__ sets or "
+           "defines __eq__ itself, and a hand-written __eq__ answers (does not raise) for values of other kinds (R7).",
+    'C02': "A template naming a missing field surfaces its KeyError (a triggered feedback never has message None); "
+           "Report.clear() is executed and leaves no suppression of an earlier grading in force (R10).",
+    'C03': "Feedback.__init__ keeps a string score's meaning ('+12.5%' stays 0.125).",
+    'C04': "The feedback object built from the exception is tainted on the filing path (Report.add_feedback / "
+           "add_ignored_feedback / _handle_condition): converting it converts the student's exception; format_line is "
+           "executed for pedal's own multi-line frames.",
+    'C05': "The stdlib base class's trace-touching methods (bdb.Bdb.set_quit ...) are modelled as CPython defines them.",
+    'C06': "The submission holds the text given, character for character (tabs inside string literals included); the "
+           "value handed back is the object just produced also when the same code is observed twice.",
+    'C08': "Location.from_ast reports a node's own line and column, decorated definitions included (R9).",
+    'C10': "Every CaitNode.find_matches call builds a pattern tree of its own (R6).",
+    'C13': "register_builtin_module / reset_builtin_modules are executed with a model loader: every reset rebuilds the "
+           "module types (a memoised loader shares one mutable ModuleType).",
+    'C14': "The frames a timeout shows under full_traceback can be rendered (R7); sandbox code never writes "
+           "sys.modules / sys.stdout / time.sleep outside tracked patches, so an abandoned thread cannot alter later "
+           "executions through them (R8).",
+    'C15': "PrintingStringIO.write records the text the student wrote whatever the console can display.",
+    'C16': "What the proxy wraps is the object the student code produced, also for a repeated observation whose value "
+           "merely compares equal to the previous one (R10).",
+    'C18': "get_builtin_name is run on instances of pedal's real constructor types (R5c); every *_definition typing "
+           "rule of pedal.types.builtin is executed on plain-typed arguments and must not raise (R4d).",
+    'C19': "singular_name / plural_name of every core type, the empty tuple included, can be computed (R7); a variable "
+           "assigned twice carries the type of the last value (R8).",
+    'C20': "The same format spec rendered for two formatter instances of one class uses each report's own formatter; no "
+           "Feedback subclass constructor re-runs the base constructor after it failed (R11).",
+}
+for _k, _v in _ADDENDA10.items():
+    CLAIMS[_k]['text'] = CLAIMS[_k]['text'].rstrip() + ' ' + _v
 for _k, _v in _ADDENDA4.items():
     CLAIMS[_k]['text'] = CLAIMS[_k]['text'].rstrip() + ' ' + _v
 for _k, _v in _ADDENDA.items():
